@@ -29,7 +29,8 @@ Definition ap_of_name (n : bytes) : option apmode :=
 
 (* an alternative of an `or` rule: a built-in scalar type with its rules (a bare name has none; `any`), or the names
    "object" / "array" *)
-Inductive oralt := OALeaf (l : leaf) | OAObject | OAArray.
+Inductive oralt := OALeaf (l : leaf) | OAObject | OAArray
+| OARef (name : bytes) (nullable : bool).        (* a type name, bare or as {type: "@name", nullable: ..} *)
 
 (* a schema: the example tree with the rules of every node; keys are the decoded key texts *)
 Inductive snode :=
@@ -37,14 +38,17 @@ Inductive snode :=
 | SOr (ex : bytes) (alts : list oralt) (nullable : bool)              (* a scalar example with an `or` rule *)
 | SArr (items : list snode) (mn mx : option Z) (nullable : bool)
 | SObj (members : list (bytes * (bool * snode))) (ap : apmode) (nullable : bool)      (* key, optional, value *)
-| SRef (name : bytes) (nullable : bool).                               (* the value is written as a type name: @name *)
+| SRef (name : bytes) (nullable : bool)                                (* the value is written as a type name: @name *)
+| SChoice (names : list bytes) (nullable : bool)                       (* a type choice: @a | @b *)
+| SRefLit (ex : bytes) (name : bytes) (nullable : bool).               (* a scalar example with the rule type: "@name" *)
 
 Inductive otree :=
 | OLeaf (o : oasx)
 | OAnyOf (alts : list otree) (nullable : bool)
 | OArr (items : list otree) (mn mx : option Z) (nullable : bool)      (* items: {} / the schema / anyOf of the schemas *)
 | OObj (props : list (bytes * otree)) (required : list bytes) (ap : apmode) (nullable : bool)
-| ORef (name : bytes) (nullable : bool).                 (* {"$ref": "#/components/schemas/name"}, in allOf when nullable *)
+| ORef (name : bytes) (nullable : bool)                  (* {"$ref": "#/components/schemas/name"}, in allOf when nullable *)
+| OChoice (names : list bytes) (nullable : bool).        (* {"anyOf": [{"$ref": ..}, ..]} of a type choice (no example) *)
 
 Fixpoint to_otree (n : snode) : otree :=
   match n with
@@ -57,6 +61,7 @@ Fixpoint to_otree (n : snode) : otree :=
                           | OALeaf l => OLeaf (to_oasx_alt ex l)
                           | OAObject => OObj [] [] APFalse false
                           | OAArray => OArr [] None (Some 0) false
+                          | OARef r rn => ORef r rn
                           end) alts) nu
     end
   | SArr items mn mx nu =>
@@ -65,6 +70,8 @@ Fixpoint to_otree (n : snode) : otree :=
     OObj (map (fun m => (fst m, to_otree (snd (snd m)))) ms)
          (map fst (filter (fun m => negb (fst (snd m))) ms)) ap nu
   | SRef name nu => ORef name nu
+  | SChoice names nu => OChoice names nu
+  | SRefLit _ name nu => ORef name nu          (* {"allOf": [{"$ref": ..}], "example": .., "nullable": ..} *)
   end.
 
 (* JSON values: scalars as their literal text *)
@@ -76,7 +83,8 @@ Fixpoint example (n : snode) : jval :=
   | SOr ex _ _ => JLit ex
   | SArr items _ _ _ => JArr (map example items)
   | SObj ms _ _ => JObj (map (fun m => (fst m, example (snd (snd m)))) ms)
-  | SRef _ _ => JLit w_null_lit         (* without the registered types a reference has no example: Model/OasRef.v example_e *)
+  | SRef _ _ | SChoice _ _ => JLit w_null_lit         (* without the registered types a reference has no example: Model/OasRef.v example_e *)
+  | SRefLit ex _ _ => JLit ex
   end.
 
 Fixpoint plookup {A} (k : bytes) (l : list (bytes * A)) : option A :=
